@@ -259,7 +259,7 @@ func c07Strings(c *mc.Check, maxLen int) {
 
 // ---- (2) every text either parses or fails cleanly ----
 
-var c07TextSymbols = append(append([]string{}, c07Symbols...), "[", "]", "k")
+var c07TextSymbols = append(append([]string{}, c07Symbols...), "[", "]", "k", "^") // "^": negated classes and anchors inside regexp values
 
 func c07CheckClean(text string) string {
 	check := func(kind string, err error) string {
